@@ -29,7 +29,7 @@ LEVEL = "exploration"
 IN_PROCESS = False
 CHUNK_TIMEOUT = 1500
 RULE = (
-    "cases as in C18 restricted to assertion generation SIMPLE / MUTATION_ANALYSIS (SUT corpus whose interesting value is often the "
+    "the cases of C18 restricted to assertion generation SIMPLE / MUTATION_ANALYSIS (SUT corpus whose interesting value is often the "
     "result of the last call, x seeds x algorithms x no_xfail x black x post_process on/off x minimisation strategy); each case is one "
     "real run_pynguin() with snapshot wrappers on _generate_assertions / _minimize_assertions / _minimize (exit) and _export_chromosome "
     "(entry) and a before/after wrapper on TestCase.remove_unused_variables; oracle = per test case, set difference of rendered "
@@ -70,7 +70,7 @@ def floors(tier):
 def plan(tier, seed):
     from vlib import genfiles
 
-    return genfiles.plan(tier, seed, want_assertions=True)
+    return genfiles.plan(tier, seed)  # the same cases as C18/C24 (shared runs under VERIF_GENFILES_CACHE); ag=NONE cases are skipped
 
 
 # ---------------------------------------------------------------------------------------------------------------------
